@@ -377,6 +377,12 @@ class TransactionManager(Elaboratable):
         ready_dependencies = self._ready_dependencies(method_map)
         conditionally_called = self._conditionally_called(method_map)
 
+        for method, transactions in method_map.transactions_by_method.items():
+            if method.single_caller and len(transactions) > 1:
+                raise RuntimeError(
+                    f"Single-caller method '{method.name}' {method.src_loc} called from more than one transaction"
+                )
+
         # remove orderings between simultaneous methods/transactions
         # TODO: can it be done after transitivity, possibly catching more cases?
         for elem in method_map.methods_and_transactions:
